@@ -176,7 +176,7 @@ func main() {
 			return 256
 		},
 		Run: run,
-		Floors: map[string]int64{"histories": 30, "messages_judged": 10000, "chk_rule_ipset_exists": 500, "chk_endpoint_policy_exists": 200,
+		Floors: map[string]int64{"histories": 30, "messages_judged": 4000, "chk_rule_ipset_exists": 500, "chk_endpoint_policy_exists": 200,
 			"chk_endpoint_profile_exists": 200, "chk_ipset_delta_add_absent": 100, "chk_ipset_delta_remove_present": 100,
 			"chk_remove_exists": 500, "chk_ipset_remove_unreferenced": 50, "chk_policy_remove_unreferenced": 50,
 			"chk_profile_remove_unreferenced": 20, "chk_vtep_before_route": 5, "chk_insync_order": 2, "async_runs": 3, "async_insync_last_checks": 1},
